@@ -575,6 +575,9 @@ func (e *Exec) appendOp(args []Value, c *ssa.CallCommon, site string) Value {
 			sym := quoteSym(strings.TrimPrefix(dst.O.Tag, "lazy:") + "!spare")
 			e.declareInput(sym, "Bool")
 			if e.branch(&BoolV{T: sym}) {
+				if dst.O.Spare == 0 {
+					dst.O.Spare = int(dn) + 1
+				}
 				for len(arr.E) < int(dn)+len(srcElems) {
 					arr.E = append(arr.E, nil)
 				}
